@@ -119,4 +119,23 @@ PROPS = {
             "status codes 100..999, reasons / header names / values without CR LF, values without outer whitespace, at most one Transfer-Encoding field (chunked) and one Content-Length field",
         ],
     },
+    'C13': {
+        'streams': ['pool'],
+        'shrink': {},
+        'assumptions': [
+            "partial: the theorems cover every interleaving of the MODEL (mpsc channel = FIFO queue received from under the mutex; Mutex, thread::spawn/join as usual); the code is tied to it by acceptance of recorded event traces of real runs - OS schedules are sampled, not enumerated",
+            "jobs terminate (or, for C13_parallel, a set of fewer than n jobs never does)",
+            "logging discipline (release-type events logged before, acquire-type after the operation) makes every real log a linearisation of a model run",
+        ],
+    },
+    'C07': {
+        'streams': ['conn07'],
+        'shrink': {},
+        'assumptions': [
+            "a connection's inbound stream is a list of non-empty segments; a read returns at most one segment; lock-step histories = no segment carries bytes of two requests (Spec/ConnKnown.v lockstep)",
+            "the interleaving 'next request arrives while the unread body of an answered request is being discarded' is produced deterministically with a barrier inside the harness handler (/hold) and appears in the model as one merged segment",
+            "handlers are the harness application; read_to_end is modelled with 8192-byte reads (the data delivered does not depend on read sizes, C06)",
+            "two recorded findings bound the theorem: known_F20c (chunked read-ahead) and known_F21 (failed discard of a malformed body goes unnoticed); both have machine-checked witnesses in Properties/C07.v",
+        ],
+    },
 }
